@@ -9,7 +9,8 @@ of html5lib's tokenizer, hence the restricted style:
   * the input character is only ever compared directly (`c == "<"`,
     `"A" <= c <= "Z"`), lower-cased with `chr(ord(c) + 32)`;
   * no regexes, no str methods on input-derived strings, no sets/dicts keyed by
-    input characters (r10_charref is the one exception, by design);
+    input characters (r10_charref walks an immutable trie by `==` comparisons,
+    so it does not hash input-derived strings either);
   * `TokState` is a plain attribute bag; no global mutable state.
 
 Deliberate granularity choices (all documented in README.md):
@@ -55,6 +56,7 @@ class TokState:
         self.dt_system = None
         self.dt_force_quirks = False
         self.dt_active = False      # a DOCTYPE token is under construction
+                                    # (extra to the requested interface)
         self.last_start_tag = None
         self.cdata_allowed = False
         self.out = []
